@@ -42,7 +42,7 @@ func init() {
 		ID:    "C03",
 		Level: "fault_enumeration",
 		Rule: "scripted victim scenarios S1 (sync/upload/checkpoints), S2 (+compaction L1/L2, snapshot), S3 (+L0, snapshot and TXID retention), S4 (restore plain / integrity-checked / by TXID), " +
-			"S5 (meta directory lost: baseline fetch at init), S5b (database+meta rolled back: local L0 cleared, baseline fetch), S7 (follow-mode restore with -txid sidecar); a count run under ptsup gives the " +
+			"S5 (meta directory lost: baseline fetch at init), S5b (database+meta rolled back: local L0 cleared, baseline fetch), S7 (follow-mode restore with -txid sidecar), thorough also S6 (the real `litestream replicate` binary with millisecond monitors, 200 PRNG kill indices, logical oracle); a count run under ptsup gives the " +
 			"M file-system-mutating syscalls of the traced phase; one case = (scenario, config, N): SIGKILL of the whole litestream process immediately before the N-th call, then (a) every *.ltx under a final name " +
 			"in meta and replica directory decodes with valid checksums and agrees with its file name, restore outputs under their final name equal the image they were asked for, sidecars parse; " +
 			"(b) Restore(TXID=last acknowledged) from the post-kill replica equals the source image recorded at that acknowledgement; (c) a fresh victim process, two more application transactions, " +
@@ -57,6 +57,7 @@ func init() {
 		},
 		Cases:       cases,
 		RunCase:     runCase,
+		Finish:      finish,
 		MinEvals:    200,
 		CaseTimeout: 5 * time.Minute,
 		Workers: func(run *vf.Run) int {
@@ -238,6 +239,18 @@ func cases(run *vf.Run) ([]json.RawMessage, error) {
 			}
 		}
 	}
+	if only := os.Getenv("VERIF_C03_ONLY"); only != "" {
+		// development aid (mutant validation): restrict the run to some scenarios, e.g. "S2,S4"
+		var keep []job
+		for _, j := range jobs {
+			for _, n := range strings.Split(only, ",") {
+				if j.sc.Name == n {
+					keep = append(keep, j)
+				}
+			}
+		}
+		jobs = keep
+	}
 	results := make([]*countResult, len(jobs))
 	var wg sync.WaitGroup
 	for i, j := range jobs {
@@ -259,6 +272,11 @@ func cases(run *vf.Run) ([]json.RawMessage, error) {
 		if m == 0 {
 			return nil, fmt.Errorf("count run of %s/%s saw no file-system-mutating syscall", j.sc.Name, j.cfg.Name)
 		}
+		byCall := map[string]int{}
+		for _, e := range r.log.Events {
+			byCall[describe(root, e)]++
+		}
+		countSummary[j.sc.Name+"/"+j.cfg.Name] = map[string]any{"fs_mutating_syscalls": m, "acks_in_scenario": r.acks, "selection": j.mode, "by_call": byCall}
 		pick := map[int]string{}
 		if j.mode == "all" {
 			for n := 1; n <= m; n++ {
@@ -299,7 +317,35 @@ func cases(run *vf.Run) ([]json.RawMessage, error) {
 				Expect: describe(root, r.log.Events[n-1]), Why: pick[n]}))
 		}
 	}
+	if run.Tier == "thorough" && os.Getenv("VERIF_C03_ONLY") == "" {
+		// S6: the real binary, 200 PRNG-chosen kill indices
+		seed := dataSeed(run.Seed, "S6")
+		m, err := s6CountRun(run, seed)
+		if err != nil {
+			return nil, err
+		}
+		countSummary["S6/real-binary"] = map[string]any{"fs_mutating_syscalls_in_count_run": m, "selection": "200 PRNG indices"}
+		rng := rand.New(rand.NewSource(vf.SubSeed(run.Seed, "C03-S6")))
+		for i := 0; i < 200; i++ {
+			out = append(out, vf.Spec(spec{Scenario: "S6", Cfg: "real", N: 1 + rng.Intn(m), DataSeed: seed, M: m, Why: "sample"}))
+		}
+	}
 	return out, nil
+}
+
+// countSummary is filled by cases() and reported by finish() (same process).
+var countSummary = map[string]any{}
+
+func finish(run *vf.Run, results []*vf.Result, ev map[string]any) []vf.Violation {
+	ev["count_runs"] = countSummary
+	notKilled := 0
+	for _, r := range results {
+		if r != nil && r.Counters["not_killed_n_beyond_run"] > 0 {
+			notKilled++
+		}
+	}
+	ev["kill_index_beyond_run"] = notKilled
+	return nil
 }
 
 func configByName(n string) (Config, bool) {
@@ -321,6 +367,13 @@ func runCase(run *vf.Run, raw json.RawMessage, dir string) *vf.Result {
 	if err := json.Unmarshal(raw, &s); err != nil {
 		res.HarnessErr = err.Error()
 		return res
+	}
+	if err := EnsurePtsup(); err != nil {
+		res.HarnessErr = err.Error()
+		return res
+	}
+	if s.Scenario == "S6" {
+		return runS6(run, s, dir, res)
 	}
 	sc := ScenarioByName(s.Scenario)
 	cfg, ok := configByName(s.Cfg)
